@@ -66,6 +66,7 @@ func init() {
 		ch("verifHarnessC10NewStoreNoCache", map[string]int{"names": 2, "fails": 2, "entrykinds": 2}, map[string]int{"names": 3, "fails": 3, "entrykinds": 3}, []string{"end-error", "end-ok"}, "NewStore without cache: declared names (duplicates, empty), failing/recovering service, ending context, back-off"),
 		ch("verifHarnessC10NewStoreDoc", map[string]int{"names": 2, "fails": 1, "entrykinds": 2}, map[string]int{"names": 2, "fails": 2, "entrykinds": 3}, []string{"end-error", "end-ok", "end-from-cache"}, "NewStore with a cache document (valid or not, partial or complete)"),
 		ch("verifHarnessC10NewStoreBadCache", map[string]int{"fails": 1, "entrykinds": 2}, map[string]int{"fails": 2, "entrykinds": 3}, []string{"end-error", "end-ok"}, "NewStore with an unreadable, empty or arbitrary-bytes cache"),
+		chs("verifHarnessC10NewStoreStructs", map[string]int{}, nil, []string{"end-ok", "end-empty"}, "declared names from Secrets and from struct tags with duplicates across and within both, with and without a cache entry"),
 		ch("verifHarnessC10Misconfig", map[string]int{}, nil, []string{"end"}, "misconfiguration is an error without any request"),
 		ch("verifHarnessC10FileClient", map[string]int{}, nil, []string{"end-present", "end-absent"}, "file-backed client: a missing declared secret fails at once, no waiting"))
 	propRegistry = append(propRegistry, c10)
@@ -110,4 +111,10 @@ func init() {
 	c20 := &Property{ID: "C20", Pkgs: []string{"client/setec"}, Bounds: map[string]string{"fields": "one each of []byte, string, Secret, custom unmarshaler; values arbitrary; each lookup may fail"}}
 	c20.Harnesses = append(c20.Harnesses, ch("verifHarnessC20Apply", map[string]int{}, nil, []string{"end"}, "Fields.Apply/Secrets on a hand-built field list: per-type assignment, private copy, naming, error isolation"))
 	propRegistry = append(propRegistry, c20)
+}
+
+func chs(name string, params, thorough map[string]int, reach []string, desc string) *HarnessSpec {
+	h := ch(name, params, thorough, reach, desc)
+	h.Stubs["github.com/tailscale/setec/client/setec.ParseFields"] = "verifStubParseFields"
+	return h
 }
